@@ -10,6 +10,7 @@ require (
 )
 
 require (
+	github.com/golang/protobuf v1.4.2 // indirect
 	github.com/henrylee2cn/ameda v1.3.6 // indirect
 	github.com/henrylee2cn/cfgo v0.0.0-20180417024816-e6c3cc325b21 // indirect
 	github.com/klauspost/cpuid v1.2.2 // indirect
@@ -17,11 +18,15 @@ require (
 	github.com/pkg/errors v0.8.1 // indirect
 	github.com/templexxx/cpu v0.0.1 // indirect
 	github.com/templexxx/xorsimd v0.4.1 // indirect
+	github.com/tidwall/gjson v1.2.2 // indirect
+	github.com/tidwall/match v1.0.1 // indirect
+	github.com/tidwall/pretty v1.0.0 // indirect
 	github.com/tjfoc/gmsm v1.0.1 // indirect
 	github.com/xtaci/kcp-go/v5 v5.5.12 // indirect
 	golang.org/x/crypto v0.0.0-20200622213623-75b288015ac9 // indirect
 	golang.org/x/net v0.0.0-20200707034311-ab3426394381 // indirect
 	golang.org/x/sys v0.0.0-20200519105757-fe76b779f299 // indirect
+	google.golang.org/protobuf v1.23.0 // indirect
 	gopkg.in/yaml.v2 v2.3.0 // indirect
 )
 
